@@ -151,6 +151,15 @@ def case(draw):
                                       ['Zqx Corner Cafe', 'Zqx Corner Cafe', 'ZQX OTHER', 'zqx corner cafe', 'Zqx Corner Cafe']]))
         rows = [{'kind': 'good', 'date': f'2024-04-1{i}', 'unpadded': False, 'cents': 450 + 125 * i, 'style': PLAIN_STYLE, 'desc': d, 'customs': {}, 'loc': '', 'skip': ''}
                 for i, d in enumerate(descs)]
+        if b['rules_kind'] == 'rules' and draw(st.booleans()):
+            # a rule named exactly like the name tally derives for an unmatched description, applying to SOME of the charges with that description only:
+            # what is Unknown is decided per transaction, not per merchant name
+            order = draw(st.sampled_from([[450, 4500], [4500, 450], [450, 4500, 600]]))
+            rows = rows + [{'kind': 'good', 'date': f'2024-05-1{i}', 'unpadded': False, 'cents': c, 'style': PLAIN_STYLE, 'desc': 'ZQXCAFE', 'customs': {}, 'loc': '', 'skip': ''}
+                           for i, c in enumerate(order)]
+            rf = b['rf']
+            b = dict(b, rf=dict(rf, rules=[{'name': 'Zqxcafe', 'match': ['and', [['match', 'contains', None, 'ZQXCAFE'], ['cmp', ['name', 'amount'], [['<', ['num', 30]]]]]], 'category': 'Food',
+                                            'subcategory': 'Coffee', 'merchant': None, 'priority': 98, 'tags': [], 'lets': [], 'fields': []}] + rf['rules']))
         b = dict(b, sources=list(b['sources']) + [{'layout': lay, 'rows': rows, 'state': 'ok'}])
     return {'b': b, 'probes': probes}
 
